@@ -154,6 +154,67 @@ func (e *env) buildSet(g *rng.R, at *chaingen.Node, kind string) ([]types.V2Tran
 		for _, k := range c.Kinds {
 			e.st["set-kind:"+k]++
 		}
+	case "block-parent":
+		// a transaction P of a child block of `at` together with a new child spending one of
+		// P's outputs (siacoin or siafund) ephemerally: rebasing past that block confirms P and
+		// must give the child's input the created element
+		var kids []*chaingen.Node
+		for _, c := range at.Children {
+			if c.ChainValid() && len(c.Block.V2Transactions()) > 0 {
+				kids = append(kids, c)
+			}
+		}
+		if len(kids) == 0 {
+			return nil, nil
+		}
+		c := kids[g.Intn(len(kids))]
+		var cands []types.V2Transaction
+		for _, t := range c.Block.V2Transactions() {
+			for _, o := range t.SiacoinOutputs {
+				if o.Address == w.Env.Addr && o.Value.Cmp(types.Siacoins(10)) > 0 {
+					cands = append(cands, t)
+					break
+				}
+			}
+			for _, o := range t.SiafundOutputs {
+				if o.Address == w.Env.Addr {
+					cands = append(cands, t)
+					break
+				}
+			}
+		}
+		if len(cands) == 0 {
+			return nil, nil
+		}
+		p := cands[g.Intn(len(cands))].DeepCopy()
+		var child types.V2Transaction
+		done := false
+		if len(p.SiafundOutputs) > 0 && (g.Bool() || len(p.SiacoinOutputs) == 0) {
+			for i, o := range p.SiafundOutputs {
+				if o.Address == w.Env.Addr && !done {
+					child = types.V2Transaction{
+						SiafundInputs:  []types.V2SiafundInput{{Parent: p.EphemeralSiafundOutput(i), ClaimAddress: w.Env.Addr}},
+						SiafundOutputs: []types.SiafundOutput{{Address: w.Env.Payees[0], Value: o.Value}},
+					}
+					w.Env.SignV2(at.FullState, &child)
+					done = true
+					e.st["set-kind:ephemeral-siafund-child"]++
+				}
+			}
+		}
+		if !done {
+			for i, o := range p.SiacoinOutputs {
+				if o.Address == w.Env.Addr && o.Value.Cmp(types.Siacoins(10)) > 0 && !done {
+					child = w.Env.V2Spend(at.FullState, p.EphemeralSiacoinOutput(i), one, one, w.Env.Payees[0], 0, 3)
+					done = true
+					e.st["set-kind:ephemeral-siacoin-child"]++
+				}
+			}
+		}
+		if !done {
+			return nil, nil
+		}
+		set = []types.V2Transaction{p, child}
 	case "builder":
 		b := w.Env.NewBuilder(chaingen.Blocks(w.T.Path(at)))
 		for i := 0; i < 3; i++ {
@@ -300,10 +361,21 @@ func (e *env) judge(what string, orig, out []types.V2Transaction, err error, ex 
 	}
 }
 
-func runCase(cs poolsim.Case, coqWanted bool) (string, *failure, stats, *poolsim.Runner) {
+func runCase(cs poolsim.Case, coqWanted bool) (coqOut string, failOut *failure, stOut stats, rOut *poolsim.Runner) {
 	t := cs.Tree()
 	w := poolsim.NewWorld(t)
 	var fail *failure
+	defer func() {
+		if p := recover(); p != nil {
+			coqOut, failOut = "", &failure{"c13-state-corrupted", fmt.Sprint("the history broke an invariant of the harness (memory shared with the manager was modified?): ", p)}
+			if stOut == nil {
+				stOut = stats{}
+			}
+			if rOut == nil {
+				rOut = poolsim.NewRunner(w, func(string, string) {})
+			}
+		}
+	}()
 	report := func(kind, detail string) {
 		if fail == nil {
 			fail = &failure{kind, detail}
@@ -767,7 +839,7 @@ func runCase(cs poolsim.Case, coqWanted bool) (string, *failure, stats, *poolsim
 	return coq, fail, st, r
 }
 
-var setKinds = []string{"fresh", "eph-chain", "eph-chain", "mixed", "block-child", "block-child", "builder"}
+var setKinds = []string{"fresh", "eph-chain", "eph-chain", "mixed", "block-child", "block-child", "block-parent", "block-parent", "builder"}
 var corruptions = []string{"proof", "leaf", "unknown-basis", "basis-height"}
 
 // genPlan: submit the whole tree (every branch), rebase sets between every pair of known
@@ -902,7 +974,20 @@ func run(c *hx.Ctx) {
 	for i := 0; i < n; i++ {
 		g := c.R.Fork()
 		cs := poolsim.Case{Seed: g.U64(), Regime: []int{2, 1, 2, 5}[i%4], Opts: chaingen.GenOpts{Blocks: 7 + g.Intn(9), Branchiness: 2 + g.Intn(3), TxPerBlock: 1 + g.Intn(3), Jitter: g.Intn(3)}}
-		t := cs.Tree()
+		var t *chaingen.Tree
+		func() {
+			defer func() {
+				if p := recover(); p != nil {
+					// blocks built from the lists the manager returned no longer replay: they share memory with the pool
+					res.Fail("c13-generated-chain-corrupted", fmt.Sprint("building the fork tree with the chain generator (blocks mined from PoolTransactions/V2PoolTransactions on a linear node) failed: ", p), map[string]any{"case": cs})
+					t = nil
+				}
+			}()
+			t = cs.Tree()
+		}()
+		if t == nil {
+			continue
+		}
 		cs.Plan = genPlan(rng.New(cs.Seed^0xfeedbeef), t, c.Scale(40, 400))
 		doCase(cs)
 	}
